@@ -23,7 +23,8 @@ MC(e) ==    Chk(ABIOk(e.obs), "C19", "abi", l, << e.e, alg, fam, e.obs >>)
          \o Chk(StaticOk(e.obs, FALSE), "C18", "static-write", l, << e.e, alg, fam, e.obs.stsym >>)
 RetChecks(e, js) ==
   IF e.ret = -1 THEN << >>
-  ELSE    Chk(e.jst = 2, "DRIFT", "scheduler-job-not-marked-completed", l, << alg, fam, e.ret, e.jst >>)   \* ISAL_JOB_STS is internal
+  ELSE    \* ISAL_JOB_STS is internal; the single-buffer manager (sb_sse4) hands the job back without touching its status word
+          Chk(fam = "sb_sse4" \/ e.jst = 2, "DRIFT", "scheduler-job-not-marked-completed", l, << alg, fam, e.ret, e.jst >>)
        \o Chk(e.dig = ToHex(Chain(alg, js[e.ret])), "C01", "scheduler-chaining-value", l, << alg, fam, js[e.ret], e.dig >>)
 
 TReset == /\ IsEv("JReset")
